@@ -85,120 +85,139 @@ def worker(job, shard, nshards):
     import xdeps.refs as xr
     cases, envs = job["cases"], job["envs"]
     fails, stats, samples = [], collections.Counter(), []
-    parsers = {(mode, kind): MadxEval({}, math, {}, get=mode) for mode in ("item", "attr") for kind in ("imm", "def")}   # building a Lark parser is the slow part
-
-    def evaluator(mode, kind, variables_, functions_, elements_):
-        p = parsers[(mode, kind)]
-        p.variables, p.functions, p.elements = variables_, functions_, elements_
-        return p.eval
-    for ci in range(shard, len(cases), nshards):
-        case = cases[ci]
-        ast = case["ast"]
+    mine = list(range(shard, len(cases), nshards))
+    # One environment = plain data + a manager + one immediate and one deferred evaluator, built through the public constructors
+    # (building a Lark parser costs ~25 ms) and used for many strings, like MadxEnv importing a lattice.  The same strings are then
+    # evaluated again in the NEXT environment by its own evaluators: whatever an evaluator keeps must not leak into another one.
+    for mode in ("item", "attr"):
         for ename, env in envs.items():
-            for style in ("min", "full"):
-                variant = (ci + (0 if style == "min" else 1) + len(ename)) % 30
-                mode = "attr" if (ci + len(ename)) % 2 else "item"
-                s = spell(case[style], variant)
-                stats["strings"] += 1
+            variables = collections.defaultdict(lambda: 0)
+            init_v = {n: to_py(v) for n, v in env["v"].items()}
+            init_e = {(el, a): to_py(v) for el, d in env["e"].items() for a, v in d.items()}
+            variables.update(init_v)
+            if mode == "item":
+                elements = {el: {a: to_py(v) for a, v in d.items()} for el, d in env["e"].items()}
+                gete = lambda el, a: elements[el][a]
 
-                def fail(summary, detail=None):
-                    stats["fail"] += 1
-                    if len(fails) < 100:
-                        fails.append({"tags": ["C19"], "summary": summary, "string": s, "ast": ast, "env": ename, "mode": mode, "style": style, "detail": detail or {}})
-                variables = collections.defaultdict(lambda: 0)
-                for n, v in env["v"].items():
-                    variables[n] = to_py(v)
-                if mode == "item":
-                    elements = {el: {a: to_py(v) for a, v in d.items()} for el, d in env["e"].items()}
-                    gete = lambda el, a: elements[el][a]
+                def rawe(el, a, v):
+                    elements[el][a] = v
 
-                    def sete(el, a, v, eref):
-                        eref[el][a] = v
-                else:
-                    elements = {}
-                    for el, d in env["e"].items():
-                        o = Obj()
-                        for a, v in d.items():
-                            setattr(o, a, to_py(v))
-                        elements[el] = o
-                    gete = lambda el, a: getattr(elements[el], a)
+                def sete(el, a, v, eref):
+                    eref[el][a] = v
+            else:
+                elements = {}
+                for el, d in env["e"].items():
+                    o = Obj()
+                    for a, v in d.items():
+                        setattr(o, a, to_py(v))
+                    elements[el] = o
+                gete = lambda el, a: getattr(elements[el], a)
 
-                    def sete(el, a, v, eref):
-                        setattr(eref[el], a, v)
-                getv = lambda n: variables[n]
-                with warnings.catch_warnings():
-                    warnings.simplefilter("ignore")
-                    # ---- the mirrored term and the specification --------------------------------------------------
-                    m_imm = outcome(lambda: pyeval(ast, getv, gete, False))
-                    m_def = outcome(lambda: pyeval(ast, getv, gete, True))
-                    for which, mo in (("imm", m_imm), ("def", m_def)):
-                        sv = case["vals"][ename][which]
-                        if sv["t"] == "raise" or exact(sv):
-                            stats["spec_exact_values"] += 1
-                            if not same_outcome(spec_outcome(sv), mo):
-                                raise Machinery(f"Madx.tla/PyVal.tla disagree with CPython on {ast} in env {ename} ({which}): spec {spec_outcome(sv)!r}, CPython {mo!r}")
-                        else:
-                            stats["spec_opaque_values"] += 1
-                    # ---- immediate evaluation ---------------------------------------------------------------------------
-                    imm = outcome(lambda: evaluator(mode, "imm", variables, math, elements)(s))
-                    if imm.exc and imm.exc not in ("ZeroDivisionError", "ValueError", "OverflowError", "TypeError") and not m_imm.exc:
-                        fail(f"madeval({s!r}) raised {imm.exc}; the grammar derives this string")
-                        continue
-                    if not same_outcome(imm, m_imm):
-                        fail(f"madeval({s!r}) gives {imm!r}, the syntax tree evaluates to {m_imm!r}")
-                        continue
-                    # ---- deferred evaluation -----------------------------------------------------------------------------
-                    m = xdeps.Manager()
-                    vref, eref, fref = m.ref(variables, "v"), m.ref(elements, "e"), m.ref(math, "f")
-                    ex = outcome(lambda: evaluator(mode, "def", vref, fref, eref)(s))
-                    if ex.exc:
-                        if not ((m_def.exc and ex.exc == m_def.exc) or ex.exc == const_raises(ast)):     # a constant sub-term is evaluated while the string is parsed
-                            fail(f"madexpr({s!r}) raised {ex.exc} while building the deferred expression")
-                        continue
-                    e = ex.val
-                    isref = isinstance(e, xr.BaseRef)
-                    if not isref and case["names"]:
-                        fail(f"madexpr({s!r}) is the plain value {e!r} although the string reads {case['names']}")
-                        continue
-                    dv = outcome(e._get_value) if isref else Outcome(val=e)
-                    if not same_outcome(dv, m_def):
-                        fail(f"madexpr({s!r})._get_value() gives {dv!r}, the syntax tree (division by zero -> NaN) evaluates to {m_def!r}")
-                        continue
-                    if not imm.exc and not same_outcome(dv, imm) and not (isinstance(dv.val, float) and dv.val != dv.val):
-                        fail(f"madexpr({s!r}) gives {dv!r} but madeval gives {imm!r}")
-                        continue
-                    if style == "full":
-                        stats["fully_parenthesised"] += 1
-                    if not isref:
-                        stats["constant_strings"] += 1
-                        continue
-                    # ---- through the manager: assign, change what it reads, compare again ----------------------------
-                    stats["nontrivial"] += 1
-                    a = outcome(lambda: vref.__setitem__("t_out", e))
-                    if a.exc:
-                        if not (dv.exc and a.exc == dv.exc):
-                            fail(f"assigning madexpr({s!r}) to a variable raised {a.exc}")
-                        continue
-                    for j, name in enumerate(case["names"]):
-                        nv = NEWVALS[(ci + j) % len(NEWVALS)]
-                        if name[0] == "v":
-                            o = outcome(lambda: vref.__setitem__(name[1], nv))
-                        else:
-                            o = outcome(lambda: sete(name[1], name[2], nv, eref))
-                        want = outcome(lambda: pyeval(ast, getv, gete, True))
-                        if o.exc or want.exc:
-                            if o.exc != want.exc:
-                                fail(f"after {'.'.join(name[1:])} = {nv}: the update raised {o.exc}, the syntax tree gives {want!r}")
-                            break
-                        got = variables["t_out"]
-                        stats["updates"] += 1
-                        if not same(got, want.val):
-                            fail(f"after {'.'.join(name[1:])} = {nv} through the manager, the variable defined by madexpr({s!r}) holds {canon(got)}, the syntax tree evaluates to {want!r}")
-                            break
-                        again = outcome(lambda: evaluator(mode, "imm", variables, math, elements)(s))
-                        if not again.exc and not same(again.val, got) and not (isinstance(got, float) and got != got):
-                            fail(f"after {'.'.join(name[1:])} = {nv}: deferred {canon(got)} but immediate evaluation gives {again!r}")
-                            break
-                if len(samples) < 3 and len(s) > 12:
-                    samples.append({"string": s, "mode": mode, "env": ename, "deferred_value": repr(dv), "immediate": repr(imm)})
+                def rawe(el, a, v):
+                    setattr(elements[el], a, v)
+
+                def sete(el, a, v, eref):
+                    setattr(eref[el], a, v)
+            getv = lambda n: variables[n]
+            m = xdeps.Manager()
+            vref, eref, fref = m.ref(variables, "v"), m.ref(elements, "e"), m.ref(math, "f")
+            ev_imm = MadxEval(variables, math, elements, get=mode).eval
+            ev_def = MadxEval(vref, fref, eref, get=mode).eval
+            stats["evaluators_built"] += 2
+            for ci in mine:
+                if (ci + (0 if mode == "item" else 1)) % 2:
+                    continue                        # each tree in one element mode
+                case = cases[ci]
+                ast = case["ast"]
+                for style in ("min", "full"):
+                    variant = (ci + (0 if style == "min" else 1)) % 30         # the same spelling in every environment
+                    s = spell(case[style], variant)
+                    stats["strings"] += 1
+                    # reset the plain data of this environment (behind the manager's back: the previous definition of t_out is dropped first)
+                    if vref["t_out"] in m.tasks:
+                        m.unregister(vref["t_out"])
+                    for n in list(variables):
+                        if n not in init_v:
+                            del variables[n]
+                    variables.update(init_v)
+                    for (el, a), v in init_e.items():
+                        rawe(el, a, v)
+
+                    def fail(summary, detail=None):
+                        stats["fail"] += 1
+                        if len(fails) < 100:
+                            fails.append({"tags": ["C19"], "summary": summary, "string": s, "ast": ast, "env": ename, "mode": mode, "style": style, "detail": detail or {}})
+                    with warnings.catch_warnings():
+                        warnings.simplefilter("ignore")
+                        # ---- the mirrored term and the specification --------------------------------------------------
+                        m_imm = outcome(lambda: pyeval(ast, getv, gete, False))
+                        m_def = outcome(lambda: pyeval(ast, getv, gete, True))
+                        for which, mo in (("imm", m_imm), ("def", m_def)):
+                            sv = case["vals"][ename][which]
+                            if sv["t"] == "raise" or exact(sv):
+                                stats["spec_exact_values"] += 1
+                                if not same_outcome(spec_outcome(sv), mo):
+                                    raise Machinery(f"Madx.tla/PyVal.tla disagree with CPython on {ast} in env {ename} ({which}): spec {spec_outcome(sv)!r}, CPython {mo!r}")
+                            else:
+                                stats["spec_opaque_values"] += 1
+                        # ---- immediate evaluation ---------------------------------------------------------------------------
+                        imm = outcome(lambda: ev_imm(s))
+                        if imm.exc and imm.exc not in ("ZeroDivisionError", "ValueError", "OverflowError", "TypeError") and not m_imm.exc:
+                            fail(f"madeval({s!r}) raised {imm.exc}; the grammar derives this string")
+                            continue
+                        if not same_outcome(imm, m_imm):
+                            fail(f"madeval({s!r}) gives {imm!r}, the syntax tree evaluates to {m_imm!r}")
+                            continue
+                        # ---- deferred evaluation -----------------------------------------------------------------------------
+                        ex = outcome(lambda: ev_def(s))
+                        if ex.exc:
+                            if not ((m_def.exc and ex.exc == m_def.exc) or ex.exc == const_raises(ast)):     # a constant sub-term is evaluated while the string is parsed
+                                fail(f"madexpr({s!r}) raised {ex.exc} while building the deferred expression")
+                            continue
+                        e = ex.val
+                        isref = isinstance(e, xr.BaseRef)
+                        if not isref and case["names"]:
+                            fail(f"madexpr({s!r}) is the plain value {e!r} although the string reads {case['names']}")
+                            continue
+                        dv = outcome(e._get_value) if isref else Outcome(val=e)
+                        if not same_outcome(dv, m_def):
+                            fail(f"madexpr({s!r})._get_value() gives {dv!r}, the syntax tree (division by zero -> NaN) evaluates to {m_def!r}")
+                            continue
+                        if not imm.exc and not same_outcome(dv, imm) and not (isinstance(dv.val, float) and dv.val != dv.val):
+                            fail(f"madexpr({s!r}) gives {dv!r} but madeval gives {imm!r}")
+                            continue
+                        if style == "full":
+                            stats["fully_parenthesised"] += 1
+                        if not isref:
+                            stats["constant_strings"] += 1
+                            continue
+                        # ---- through the manager: assign, change what it reads, compare again ----------------------------
+                        stats["nontrivial"] += 1
+                        a_ = outcome(lambda: vref.__setitem__("t_out", e))
+                        if a_.exc:
+                            if not (dv.exc and a_.exc == dv.exc):
+                                fail(f"assigning madexpr({s!r}) to a variable raised {a_.exc}")
+                            continue
+                        for j, name in enumerate(case["names"]):
+                            nv = NEWVALS[(ci + j) % len(NEWVALS)]
+                            if name[0] == "v":
+                                o = outcome(lambda: vref.__setitem__(name[1], nv))
+                            else:
+                                o = outcome(lambda: sete(name[1], name[2], nv, eref))
+                            want = outcome(lambda: pyeval(ast, getv, gete, True))
+                            if o.exc or want.exc:
+                                if o.exc != want.exc:
+                                    fail(f"after {'.'.join(name[1:])} = {nv}: the update raised {o.exc}, the syntax tree gives {want!r}")
+                                break
+                            got = variables["t_out"]
+                            stats["updates"] += 1
+                            if not same(got, want.val):
+                                fail(f"after {'.'.join(name[1:])} = {nv} through the manager, the variable defined by madexpr({s!r}) holds {canon(got)}, the syntax tree evaluates to {want!r}")
+                                break
+                            again = outcome(lambda: ev_imm(s))
+                            if not again.exc and not same(again.val, got) and not (isinstance(got, float) and got != got):
+                                fail(f"after {'.'.join(name[1:])} = {nv}: deferred {canon(got)} but immediate evaluation gives {again!r}")
+                                break
+                    if len(samples) < 3 and len(s) > 12:
+                        samples.append({"string": s, "mode": mode, "env": ename, "deferred_value": repr(dv), "immediate": repr(imm)})
     return {"fails": fails, "stats": dict(stats), "samples": samples}
